@@ -241,8 +241,9 @@ class Report:
         self.notes = []
 
     def violation(self, what, replay_obj, found_input):
-        os.makedirs(os.path.join(VERIF, "evidence", "replays"), exist_ok=True)
-        path = os.path.join(VERIF, "evidence", "replays",
+        rdir = os.path.join(VERIF, "evidence", "replays") if REPO == "/repo" else os.path.join(WORK, "evidence-alt", "replays")
+        os.makedirs(rdir, exist_ok=True)
+        path = os.path.join(rdir,
                             "%s-%d-%d.json" % (self.prop, self.seed, len(self.violations)))
         replay_obj = dict(replay_obj)
         replay_obj.update({"property": self.prop, "what": what, "failing_input_found": found_input,
@@ -258,8 +259,10 @@ class Report:
               "wall_s": round(time.time() - self.t0, 2), "violations": len(self.violations),
               "known_findings_replayed": self.known, "notes": self.notes,
               "repo_hash": repo_hash()}
-        os.makedirs(os.path.join(VERIF, "evidence"), exist_ok=True)
-        with open(os.path.join(VERIF, "evidence", self.prop + ".json"), "w") as f:
+        # runs against another tree (VERIF_REPO set: seeded-change experiments) never overwrite the evidence of /repo
+        evdir = os.path.join(VERIF, "evidence") if REPO == "/repo" else os.path.join(WORK, "evidence-alt")
+        os.makedirs(evdir, exist_ok=True)
+        with open(os.path.join(evdir, self.prop + ".json"), "w") as f:
             json.dump(ev, f, indent=1)
         for k in self.known:
             print("KNOWN-FINDING: property=%s %s" % (self.prop, k))
